@@ -137,6 +137,59 @@ Proof.
   rewrite drain_spec by apply from_arrow_iter_bsz. rewrite from_arrow_iter_ahead. reflexivity.
 Qed.
 
+(* ---------- the iterator consumed in several steps ---------- *)
+Lemma take_n_spec k : forall s, (1 <= bsz s)%N ->
+  fst (take_n process_table k s) = firstn k (ahead s) /\
+  ahead (snd (take_n process_table k s)) = skipn k (ahead s) /\
+  bsz (snd (take_n process_table k s)) = bsz s.
+Proof.
+  induction k as [|k IH]; intros s Hb; [cbn [take_n fst snd firstn skipn]; repeat split; reflexivity|].
+  cbn [take_n]. pose proof (next_spec s Hb) as [H Hbs].
+  destruct (next process_table s) as [o s'] eqn:En. cbn [fst snd] in H, Hbs.
+  destruct (ahead s) as [|r rest] eqn:Ea.
+  - destruct H as [H1 H2]. rewrite H1. cbn [fst snd firstn skipn]. rewrite H2. repeat split; try reflexivity; exact Hbs.
+  - destruct H as [H1 H2]. rewrite H1.
+    assert (Hb' : (1 <= bsz s')%N) by (rewrite Hbs; exact Hb).
+    destruct (IH s' Hb') as [I1 [I2 I3]]. destruct (take_n process_table k s') as [l s''].
+    cbn [fst snd] in *. cbn [firstn skipn]. rewrite I1, I2, I3, H2, Hbs. repeat split; reflexivity.
+Qed.
+
+Lemma ahead_length s : (1 <= bsz s)%N -> length (ahead s) <= ifuel process_table s.
+Proof.
+  intros Hb. unfold ifuel.
+  assert (Hm : map (fun t => process_table t (bsz s)) (tabs s) = map rows_of (tabs s))
+    by (apply map_ext; intros t; apply process_ok; exact Hb).
+  rewrite Hm.
+  assert (Hp : length (pending s) = length (cur s) + length (concat (map rows_of (tabs s))))
+    by (unfold pending; apply app_length).
+  unfold ahead. destruct (cap s); [rewrite firstn_length|]; lia.
+Qed.
+
+Lemma istep_spec s op : (1 <= bsz s)%N ->
+  fst (istep process_table s op) = fst (ispec_step (ahead s) op) /\
+  ahead (snd (istep process_table s op)) = snd (ispec_step (ahead s) op) /\
+  bsz (snd (istep process_table s op)) = bsz s.
+Proof.
+  intros Hb. destruct op; cbn [istep ispec_step fst snd].
+  - apply take_n_spec; exact Hb.
+  - apply take_n_spec; exact Hb.
+  - destruct (take_n_spec (ifuel process_table s) s Hb) as [H1 [H2 H3]].
+    pose proof (ahead_length s Hb) as Hl.
+    rewrite H1, H2, H3. rewrite firstn_all2 by exact Hl. rewrite skipn_all2 by exact Hl. repeat split; reflexivity.
+Qed.
+
+Lemma irun_spec ops : forall s, (1 <= bsz s)%N -> irun process_table s ops = ispec (ahead s) ops.
+Proof.
+  induction ops as [|op ops IH]; intros s Hb; [reflexivity|].
+  cbn [irun ispec]. destruct (istep_spec s op Hb) as [H1 [H2 H3]].
+  destruct (istep process_table s op) as [l s']. destruct (ispec_step (ahead s) op) as [l' rest'].
+  cbn [fst snd] in H1, H2, H3. subst l'. rewrite IH by (rewrite H3; exact Hb). rewrite H2. reflexivity.
+Qed.
+
+Lemma from_arrow_irun tables size ops :
+  irun process_table (from_arrow_iter tables size) ops = ispec (limit size (concat (map rows_of tables))) ops.
+Proof. rewrite irun_spec by apply from_arrow_iter_bsz. rewrite from_arrow_iter_ahead. reflexivity. Qed.
+
 (* zero-row tables are invisible *)
 Lemma concat_skip_empty (ts : list T) :
   concat (map rows_of ts) =
@@ -347,6 +400,14 @@ Proof.
   rewrite fstep_spec. rewrite IH, frame_rows_materialize. reflexivity.
 Qed.
 
+Lemma srun_spec (Nm : Type) ops : forall (f : frame C T) (names : list Nm),
+  srun process_table f names ops = sspec (frame_rows process_table f) names ops.
+Proof.
+  induction ops as [|[op|j nm] ops IH]; intros f names; cbn [srun sspec]; [reflexivity| |].
+  - rewrite fstep_spec. rewrite IH, frame_rows_materialize. reflexivity.
+  - rewrite IH. reflexivity.
+Qed.
+
 Variable rows_of : T -> list (list C).
 Hypothesis process_ok : forall t b, (1 <= b)%N -> process_table t b = rows_of t.
 
@@ -379,6 +440,11 @@ Lemma frun_lazy (tables : list T) size ncols ops :
   frun process_table ncols (FLazy (from_arrow_iter tables size)) ops =
   map (expected_out (limit size (concat (map rows_of tables))) ncols) ops.
 Proof. rewrite frun_spec. cbn [frame_rows]. rewrite collect_from_arrow. reflexivity. Qed.
+
+Lemma srun_lazy (Nm : Type) (tables : list T) size (names : list Nm) ops :
+  srun process_table (FLazy (from_arrow_iter tables size)) names ops =
+  sspec (limit size (concat (map rows_of tables))) names ops.
+Proof. rewrite srun_spec. cbn [frame_rows]. rewrite collect_from_arrow. reflexivity. Qed.
 
 End FrameProofs.
 
@@ -881,6 +947,110 @@ Proof.
   cbn [pick bind]. rewrite flat_column_fixed; [reflexivity|].
   unfold ctor_fixed. cbn [is_none negb andb]. apply orb_true_r.
 Qed.
+
+(* ---------- Round 3: sessions ---------- *)
+Lemma stream_any_consumption (R T : Type) (process_table : T -> N -> list R) (rows_of : T -> list R) :
+  (forall t b, (1 <= b)%N -> process_table t b = rows_of t) ->
+  forall (tables : list T) (size : option N) (ops : list iop),
+  irun process_table (from_arrow_iter tables size) ops = ispec (limit size (concat (map rows_of tables))) ops.
+Proof. intros H tables size ops. apply (from_arrow_irun R T process_table rows_of H). Qed.
+
+Lemma ispec_step_app (R : Type) (E : list R) op : fst (ispec_step E op) ++ snd (ispec_step E op) = E.
+Proof.
+  destruct op as [|k|]; unfold ispec_step; unfold fst, snd.
+  - exact (firstn_skipn 1 E).
+  - exact (firstn_skipn k E).
+  - apply app_nil_r.
+Qed.
+
+(* the steps of a session partition a prefix of the rows; a session ending in list(it) partitions all of them *)
+Lemma ispec_concat (R : Type) ops : forall E : list R,
+  exists rest, concat (ispec E ops) ++ rest = E.
+Proof.
+  induction ops as [|op ops IH]; intros E; cbn [ispec concat]; [exists E; reflexivity|].
+  destruct (ispec_step E op) as [l rest'] eqn:Es.
+  assert (Hs : l ++ rest' = E).
+  { pose proof (ispec_step_app R E op) as A. rewrite Es in A. exact A. }
+  destruct (IH rest') as [rest Hr]. exists rest. cbn [concat]. rewrite <- app_assoc, Hr. exact Hs.
+Qed.
+
+Lemma ispec_all_nil (R : Type) ops : concat (ispec (@nil R) ops) = [].
+Proof.
+  induction ops as [|op ops IH]; [reflexivity|]. cbn [ispec].
+  destruct op as [|k|]; cbn [ispec_step firstn skipn concat app].
+  - exact IH.
+  - rewrite firstn_nil, skipn_nil. exact IH.
+  - exact IH.
+Qed.
+
+Lemma ispec_drained (R : Type) pre post : forall E : list R,
+  concat (ispec E (pre ++ IDrain :: post)) = E.
+Proof.
+  induction pre as [|op pre IH]; intros E.
+  - cbn [app ispec ispec_step concat]. rewrite ispec_all_nil. apply app_nil_r.
+  - cbn [app ispec]. destruct (ispec_step E op) as [l rest'] eqn:Es.
+    assert (Hs : l ++ rest' = E).
+    { pose proof (ispec_step_app R E op) as A. rewrite Es in A. exact A. }
+    cbn [concat]. rewrite IH. exact Hs.
+Qed.
+
+Lemma frame_session_lazy (C T Nm : Type) (process_table : T -> N -> list (list C)) (rows_of : T -> list (list C)) :
+  (forall t b, (1 <= b)%N -> process_table t b = rows_of t) ->
+  forall (tables : list T) (size : option N) (names : list Nm) (ops : list (sop Nm)),
+  srun process_table (FLazy (from_arrow_iter tables size)) names ops =
+  sspec (limit size (concat (map rows_of tables))) names ops.
+Proof. intros H tables size names ops. apply (srun_lazy C T process_table rows_of H). Qed.
+
+Lemma frame_session_list (C T Nm : Type) (process_table : T -> N -> list (list C)) :
+  forall (rows : list (list C)) (names : list Nm) (ops : list (sop Nm)),
+  srun process_table (FList rows) names ops = sspec rows names ops.
+Proof. intros rows names ops. rewrite srun_spec. reflexivity. Qed.
+
+(* one column object: the read after any prefix of steps sees exactly the attributes the assignments left *)
+Lemma column_session_current ident pre : forall c op post,
+  nth (length pre) (crun ident c (pre ++ op :: post)) None = cout ident (fold_left capply pre c) op.
+Proof.
+  induction pre as [|x pre IH]; intros c op post; [reflexivity|].
+  cbn [app crun length nth fold_left]. apply IH.
+Qed.
+
+Lemma mapM_one_named use_ids ident (c : column) :
+  orso_to_arrow_schema use_ids [(ident, c)] =
+  bind (arrow_field_named (if use_ids then ident else cname c) c) (fun f => Ok [f]).
+Proof.
+  unfold orso_to_arrow_schema. cbn [mapM fst snd]. destruct (arrow_field_named _ c); reflexivity.
+Qed.
+
+(* ... and when those attributes are in the class the typing clause speaks about, the field read maps back to them *)
+Lemma column_session_round_trip ident (c : column) op cur nm fs :
+  cout ident c op = Some (cur, nm, fs) -> roundtrippable c = true ->
+  cur = c /\ exists f, fs = Ok [f] /\ fname f = nm /\
+    from_arrow_field false f = Ok (mkCol nm (ctype c) (celem c) (cprec c) (cscale c) (fnullable f)).
+Proof.
+  intros Ho Hr.
+  assert (K : forall n, exists f, arrow_field_named n c = Ok f /\ fname f = n /\
+              from_arrow_field false f = Ok (mkCol n (ctype c) (celem c) (cprec c) (cscale c) (fnullable f))).
+  { intros n.
+    assert (R' : roundtrippable (mkCol n (ctype c) (celem c) (cprec c) (cscale c) (cnullable c)) = true) by exact Hr.
+    destruct (type_round_trip _ R') as [f [H1 [H2 H3]]]. exists f.
+    change (arrow_field (mkCol n (ctype c) (celem c) (cprec c) (cscale c) (cnullable c))) with (arrow_field_named n c) in H1.
+    cbn [cname ctype celem cprec cscale] in H2, H3. repeat split; assumption. }
+  destruct op; cbn [cout] in Ho; try discriminate Ho.
+  - injection Ho as Hc Hn Hf. subst cur nm fs. split; [reflexivity|]. destruct (K (cname c)) as [f [H1 [H2 H3]]].
+    exists f. unfold arrow_field. rewrite H1. cbn [bind]. repeat split; assumption.
+  - injection Ho as Hc Hn Hf. subst cur nm fs. split; [reflexivity|].
+    destruct (K (if use_ids then ident else cname c)) as [f [H1 [H2 H3]]].
+    exists f. rewrite mapM_one_named, H1. cbn [bind]. repeat split; assumption.
+Qed.
+
+Lemma session_partitions_rows (R : Type) (E : list R) (ops : list iop) :
+  (exists rest, concat (ispec E ops) ++ rest = E) /\
+  (forall pre post, ops = pre ++ IDrain :: post -> concat (ispec E ops) = E).
+Proof. split; [apply ispec_concat|]. intros pre post ->. apply ispec_drained. Qed.
+
+Lemma column_session_current_values (ident : list N) (c : column) (pre : list cop) (op : cop) (post : list cop) :
+  nth (length pre) (crun ident c (pre ++ op :: post)) None = cout ident (fold_left capply pre c) op.
+Proof. apply column_session_current. Qed.
 
 (* the concrete instances used by the correspondence satisfy the oracle premises *)
 Lemma pt_rows_ok : forall (t : list (list cell)) (b : N), (1 <= b)%N -> pt_rows t b = (fun x => x) t.
